@@ -10,3 +10,25 @@ Qed.
 
 Lemma nth_seq_lt start len i d : i < len -> nth i (seq start len) d = start + i.
 Proof. intros. apply seq_nth. assumption. Qed.
+
+Lemma fold_right_ext_in_seq {B} (F G : nat -> B -> B) (z : B) a n :
+  (forall j, a <= j < a + n -> forall acc, F j acc = G j acc) ->
+  fold_right F z (seq a n) = fold_right G z (seq a n).
+Proof.
+  revert a; induction n as [|n IH]; intros a H; cbn; [reflexivity|].
+  rewrite IH by (intros j Hj acc; apply H; lia). apply H. lia.
+Qed.
+
+Lemma nth_firstn_lt {B} (l : list B) m i d : i < m -> nth i (firstn m l) d = nth i l d.
+Proof.
+  revert m i; induction l as [|a l IH]; intros m i H.
+  - rewrite firstn_nil. reflexivity.
+  - destruct m as [|m]; [lia|]. cbn [firstn]. destruct i as [|i]; [reflexivity|].
+    cbn [nth]. apply IH. lia.
+Qed.
+
+Lemma firstn_In_local {B} (l : list B) n x : In x (firstn n l) -> In x l.
+Proof.
+  revert n; induction l as [|a l IH]; intros n H; destruct n; cbn in *; try contradiction.
+  destruct H as [->|H]; [left; reflexivity | right; eapply IH; exact H].
+Qed.
